@@ -143,6 +143,8 @@ T('f_c13_safe_wrap_renamed_locals', ['C13'],
       "    if not callable(wrapper):\n"),
   (A, '    wrapped_wsgi = wsgi_wrapper(inner)\n    try:\n        check_valid_wsgi(wrapped_wsgi)\n',
       '    outer = wrapper(inner)\n    wrapped_wsgi = outer\n    try:\n        check_valid_wsgi(wsgi_callable=outer)\n'))
+B('f_c13_safe_wrap_lookup_on_class', ['C13'], 'R13.b',
+  (A, "    wsgi_wrapper = getattr(source, 'wsgi_wrapper', None)\n", "    wsgi_wrapper = getattr(type(source), 'wsgi_wrapper', None)\n"))
 B('f_c13_safe_wrap_unvalidated_path', ['C13'], 'R13.b',
   (A, '    wrapped_wsgi = wsgi_wrapper(inner)\n    try:\n        check_valid_wsgi(wrapped_wsgi)\n',
       "    wrapped_wsgi = wsgi_wrapper(inner)\n    if source_name == 'error_handler':\n        return wrapped_wsgi\n    try:\n        check_valid_wsgi(wrapped_wsgi)\n"))
